@@ -303,6 +303,105 @@ func runC07(c *core.Ctx) core.Meta {
 		}
 	}
 
+	// ---------------- R07.8 every register-file access carries its wavefront's offset ----------------
+	st8 := c.Rule("R07.8", "every register-file access the compute unit builds for a wavefront (a RegisterAccess value) addresses that wavefront's own registers: its WaveOffset is set, and set from the wavefront's SRegOffset when the access goes to the scalar file and from its VRegOffset when it goes to a vector file (or from an offset parameter of an accessor); its LaneID is never an offset. The scalar file ignores the lane, so an access with lane and offset exchanged writes the same-numbered SGPR of the wavefront at offset 0 and leaves the own register unset", 8)
+	for _, fn := range c.SrcFuncs(cuPkg) {
+		for _, b := range fn.Blocks {
+			for _, in := range b.Instrs {
+				al, ok := in.(*ssa.Alloc)
+				if !ok || !strings.HasSuffix(namedTypeName(al.Type().(*types.Pointer).Elem()), "cu.RegisterAccess") || al.Referrers() == nil {
+					continue
+				}
+				var waveVals, laneVals []ssa.Value
+				file := ""
+				copied := false
+				for _, r := range *al.Referrers() {
+					if sto, ok := r.(*ssa.Store); ok && sto.Addr == ssa.Value(al) {
+						copied = true // a copy of an access built elsewhere (a parameter, another variable)
+					}
+				}
+				if copied {
+					continue
+				}
+				for _, r := range *al.Referrers() {
+					switch x := r.(type) {
+					case *ssa.FieldAddr:
+						if x.Referrers() == nil {
+							continue
+						}
+						for _, rr := range *x.Referrers() {
+							if sto, ok := rr.(*ssa.Store); ok && sto.Addr == ssa.Value(x) {
+								switch fieldNameOf(x) {
+								case "WaveOffset":
+									waveVals = append(waveVals, sto.Val)
+								case "LaneID":
+									laneVals = append(laneVals, sto.Val)
+								}
+							}
+						}
+					case *ssa.UnOp:
+						// the value handed to a register file
+						if x.Referrers() == nil {
+							continue
+						}
+						for _, rr := range *x.Referrers() {
+							call, ok := rr.(ssa.CallInstruction)
+							if !ok || !call.Common().IsInvoke() {
+								continue
+							}
+							recv := call.Common().Value
+							if f := core.LoadedField(recv); f != nil {
+								file = f.Name()
+							} else if ld, ok := recv.(*ssa.UnOp); ok {
+								if ia, ok := ld.X.(*ssa.IndexAddr); ok {
+									if f := core.LoadedField(ia.X); f != nil {
+										file = f.Name()
+									}
+								}
+							}
+						}
+					}
+				}
+				offsetField := func(v ssa.Value) string {
+					v = core.StripConv(v)
+					if f := core.LoadedField(v); f != nil {
+						return f.Name()
+					}
+					if _, isP := v.(*ssa.Parameter); isP {
+						return "param"
+					}
+					return ""
+				}
+				st8.Instances++
+				c.MarkAnalysed(fn)
+				ok = len(waveVals) > 0
+				why := "WaveOffset is never set (offset 0: the registers of the first wavefront of the file)"
+				for _, v := range waveVals {
+					of := offsetField(v)
+					switch {
+					case of == "param" || of == "WaveOffset":
+					case of == "SRegOffset" && (file == "" || file == "SRegFile"):
+					case of == "VRegOffset" && (file == "" || file == "VRegFile"):
+					default:
+						ok = false
+						why = "WaveOffset is " + prov.Of(v) + " for an access to " + file
+					}
+				}
+				for _, v := range laneVals {
+					if of := offsetField(v); of == "SRegOffset" || of == "VRegOffset" {
+						ok = false
+						why = "LaneID is the wavefront's " + of
+					}
+				}
+				st8.Ob(ok)
+				st8.Sample("%s: access to %s carries the wavefront's own offset: %v", core.FuncName(fn), file, ok)
+				if !ok {
+					c.ReportAt("R07.8", fn, al.Pos(), "register-access-offset:"+core.FuncName(fn), core.FuncName(fn)+" builds a register-file access whose "+why+": the access lands in the registers of the wavefront at offset 0 of the file (a dispatch overwrites another resident wavefront's register and leaves its own unset)")
+				}
+			}
+		}
+	}
+
 	// ---------------- R07.1 half-register merges ----------------
 	st1 := c.Rule("R07.1", "every read-modify-write of a 64-bit special register that installs a 32-bit half (x = (x & M) | (uint64(v) << S), in one or two statements) keeps exactly the other half: M == ^(0xffffffff << S); in the context of a HI half S is 32, of a LO half S is 0; half reads are uint32(x >> S) with the same S", 8)
 	type accessor struct{ pkg, fn string }
